@@ -53,6 +53,8 @@ for nm, extra in (("disasm_range_mips", []), ("disasm_range_mips.top_of_memory",
     GROUPS.append(Group(name="C08/%s" % nm, unity="C08/u_range_mips.cpp", entry="h_range_mips",
                         functions=[("disasm_range_mips", "disasm/mips.cpp", "harness+loop-contract, any range%s (function text extracted verbatim)" % (" ending above 0xfffffffc" if extra else " ending at or below 0xfffffffc")), ("disasm_mips", "disasm/mips.cpp", "replaced by its contract (4-byte instructions)")],
                         defines=extra, loops="C08/range_mips.loops.json", expected_loops=1, unwind=14, checks=CH, timeout=900))
+GROUPS.append(Group(name="C08/pdp11_addressing_mode", unity="C08/u_pdp11_mode.cpp", entry="h_pdp11_mode",
+                    functions=[("pdp11_addressing_mode", "disasm/pdp11.cpp", "extracted verbatim; loop-free, all registers x modes, any memory")], checks=CH, timeout=300))
 GROUPS.append(Group(name="C08/UtilContext.disasm.pages[bounded]", unity="C19/u_util.cpp", entry="h_disasm_pages",
                     functions=[("UtilContext::disasm(uint32_t, uint32_t)", "core/UtilContext.cpp", "harness, bounded")], defines=["WIDTH=1"],
                     unwind=8, checks=CH, timeout=900, bounded="address ranges touching at most 4 pages of 64 KiB anywhere in the 32-bit space (including the last page); which pages are in use and their used sub-ranges symbolic; the unwinding bound is the termination obligation"))
